@@ -46,7 +46,7 @@ func Pattern(r *hx.Rand, hostPct int) string {
 	return sb.String()
 }
 
-var values = []string{"a", "b", "ab", "abc", "x", "c", "ba", "1"}
+var values = []string{"a", "b", "ab", "abc", "x", "c", "ba", "1", "a", "b", "ab", "abc", "x", "c", "ba", "1", "*abc", "*", "{z}", "a*b", "{", "ab*"}
 
 // Instantiate replaces wildcards of a pattern by values; catch-alls get 1-3 segments.
 func Instantiate(r *hx.Rand, pat string, inHost bool) string {
@@ -326,4 +326,58 @@ func OverlapSet(r *hx.Rand, n int) (pats []string, target string) {
 		pats = append(pats, sb.String())
 	}
 	return
+}
+
+// OtherEntryPoints reports whether Txn.Lookup, Txn.Reverse, Iter.Reverse (router and
+// transaction) and ServeHTTP select the same route / tsr (/ params) as Router.Lookup did.
+func OtherEntryPoints(f *fox.Router, method, host, path string, want Obs, ignoreTS bool) (bool, string) {
+	txn := f.Txn(false)
+	defer txn.Abort()
+	// Txn.Lookup
+	w := httptest.NewRecorder()
+	_, c := fox.NewTestContext(w, NewRequest(method, host, path))
+	rte, cc, tsr := txn.Lookup(c.Writer(), NewRequest(method, host, path))
+	got := Obs{}
+	if rte != nil {
+		got = Obs{Found: true, Pattern: rte.Pattern(), Tsr: tsr}
+		for p := range cc.Params() {
+			got.Params = append(got.Params, [2]string{p.Key, p.Value})
+		}
+		cc.Close()
+	}
+	if fmtObs(got) != fmtObs(want) {
+		return false, "Txn.Lookup=" + fmtObs(got)
+	}
+	rr, rtsr := txn.Reverse(method, host, path)
+	if (rr != nil) != want.Found || (rr != nil && (rr.Pattern() != want.Pattern || rtsr != want.Tsr)) {
+		return false, "Txn.Reverse differs"
+	}
+	one := func(yield func(string) bool) { yield(method) }
+	for name, it := range map[string]fox.Iter{"Router.Iter": f.Iter(), "Txn.Iter": txn.Iter()} {
+		var pat string
+		found := false
+		for _, r := range it.Reverse(one, host, path) {
+			found, pat = true, r.Pattern()
+		}
+		// Iter.Reverse yields trailing-slash matches only for routes with a trailing-slash option
+		wantFound := want.Found && (!want.Tsr || ignoreTS)
+		if found != wantFound || (found && pat != want.Pattern) {
+			return false, name + ".Reverse differs"
+		}
+	}
+	return true, ""
+}
+
+func fmtObs(o Obs) string {
+	if !o.Found {
+		return "none"
+	}
+	s := o.Pattern
+	if o.Tsr {
+		s += " tsr"
+	}
+	for _, p := range o.Params {
+		s += " " + p[0] + "=" + p[1]
+	}
+	return s
 }
